@@ -14,6 +14,12 @@
 using std::string;
 typedef unsigned char uc;
 typedef unsigned __int128 u128;
+// the second asan unit is built with -funsigned-char -DVF_REDUCED (ARM-like plain char) and runs a reduced workload
+#ifdef VF_REDUCED
+static const bool REDUCED = true;
+#else
+static const bool REDUCED = false;
+#endif
 
 extern "C"
 {
@@ -356,11 +362,11 @@ static const Lists &lists()
 }
 
 // ---------------------------------------------------------------- suite: enumerated texts  ws* sign? prefix? digits junk?
-static uint64_t texts_count() { return 36ull * N_DIGIT_SLOTS; }
+static uint64_t texts_count() { return 36ull * (REDUCED ? N_DIGIT_SLOTS / 4 : N_DIGIT_SLOTS); }
 static void texts_run(uint64_t idx)
 {
     int base = BASES[idx % 36];
-    int slot = (int)(idx / 36);
+    int slot = REDUCED ? (int)(idx / 36) * 4 + (int)(idx % 4) : (int)(idx / 36);
     vf::Rng r(vf::seed(), 0xC11A, idx);
     const Lists &L = lists();
     g_texts = g_texts_nontrivial = 0;
@@ -403,7 +409,7 @@ static void literal_run(uint64_t idx)
 VF_SUITE(literals, literal_count, literal_run)
 
 // ---------------------------------------------------------------- suite: seeded random compositions
-static uint64_t rtexts_count() { return vf::thorough() ? 60000 : 1500; }
+static uint64_t rtexts_count() { return REDUCED ? 400 : vf::thorough() ? 60000 : 1500; }
 static void rtexts_run(uint64_t idx)
 {
     vf::Rng r(vf::seed(), 0xC11B, idx);
@@ -716,10 +722,10 @@ static std::vector<uc> gen_keys(vf::Rng &r, size_t n)
         }
     return k;
 }
-static size_t sort_maxn() { return vf::thorough() ? 300 : 40; }
+static size_t sort_maxn() { return REDUCED ? 24 : vf::thorough() ? 300 : 40; }
 
 // ---------------------------------------------------------------- suite: all key sequences of length <= 5 over 3 values (every tiny permutation incl. the 2/3-element networks)
-static uint64_t smallsort_count() { return 1 + 3 + 9 + 27 + 81 + 243; }
+static uint64_t smallsort_count() { return REDUCED ? 1 + 3 + 9 + 27 + 81 : 1 + 3 + 9 + 27 + 81 + 243; }
 static void smallsort_run(uint64_t idx)
 {
     size_t n = 0;
@@ -742,7 +748,7 @@ static void smallsort_run(uint64_t idx)
 VF_SUITE(small_sorts, smallsort_count, smallsort_run)
 
 // ---------------------------------------------------------------- suite: seeded random sorts, every length x element size
-static uint64_t sorts_count() { return (sort_maxn() + 1) * (vf::thorough() ? 64 : 32); }
+static uint64_t sorts_count() { return (sort_maxn() + 1) * (REDUCED ? 4 : vf::thorough() ? 64 : 32); }
 static void sorts_run(uint64_t idx)
 {
     vf::Rng r(vf::seed(), 0xC11C, idx);
@@ -764,7 +770,7 @@ static void sorts_run(uint64_t idx)
 VF_SUITE(random_sorts, sorts_count, sorts_run)
 
 // ---------------------------------------------------------------- suite: bsearch, every key present / absent / below / above, every length
-static uint64_t bs_count() { return (sort_maxn() + 1) * 4; }
+static uint64_t bs_count() { return (sort_maxn() + 1) * (REDUCED ? 2 : 4); }
 static void bs_run(uint64_t idx)
 {
     vf::Rng r(vf::seed(), 0xC11D, idx);
@@ -808,6 +814,196 @@ static void bs_run(uint64_t idx)
 }
 VF_SUITE(bsearch_all, bs_count, bs_run)
 
+// ---------------------------------------------------------------- suite: re-entrancy. The comparator itself calls qsort,
+// bsearch and strtol of the same libc (records ordered by the median of a sub-array, as user code does): every activation
+// must be independent of the ones it is nested in. All inner and outer results are compared with references computed before.
+struct Nest
+{
+    std::vector<string> sub, sub_sorted; // per record id: raw sub-array / the same sorted (elements of isz[id] bytes)
+    std::vector<size_t> isz;
+    std::vector<uc> med;                  // first byte of the median element
+    string table;                         // sorted distinct medians (searched with bsearch from inside the comparator)
+    std::vector<string> text;
+    std::vector<long> val;
+    size_t cur_isz;
+    int bad_inner, bad_bs, bad_num, bad_id;
+    uint64_t calls, limit;
+    jmp_buf jb;
+};
+static Nest N;
+static int cmp_inner(const void *a, const void *b) { return memcmp(a, b, N.cur_isz); }
+static int cmp_one(const void *a, const void *b) { return (int)*(const uc *)a - (int)*(const uc *)b; }
+static int nested_key(const uc *rec)
+{
+    uc id = rec[0];
+    if (id >= N.sub.size())
+    {
+        N.bad_id++; // the comparator was handed bytes that are not one of the records
+        return 0;
+    }
+    char scratch[64];
+    size_t isz = N.isz[id], len = N.sub[id].size() / isz;
+    memcpy(scratch, N.sub[id].data(), N.sub[id].size());
+    N.cur_isz = isz;
+    igc_qsort(scratch, len, isz, cmp_inner);
+    if (memcmp(scratch, N.sub_sorted[id].data(), N.sub[id].size()) != 0)
+        N.bad_inner++;
+    uc m = (uc)scratch[(len / 2) * isz];
+    const void *f = igc_bsearch(&m, N.table.data(), N.table.size(), 1, cmp_one);
+    uc absent = (uc)(m | 1); // medians are even, odd values are never in the table
+    if (!f || *(const uc *)f != m || igc_bsearch(&absent, N.table.data(), N.table.size(), 1, cmp_one))
+        N.bad_bs++;
+    char *e = nullptr;
+    long v = igc_strtol(N.text[id].c_str(), &e, 0);
+    if (v != N.val[id] || e != N.text[id].c_str() + N.text[id].size())
+        N.bad_num++;
+    return m;
+}
+static int cmp_nested(const void *a, const void *b)
+{
+    if (++N.calls > N.limit)
+        longjmp(N.jb, 1);
+    return nested_key((const uc *)a) - nested_key((const uc *)b);
+}
+static bool __attribute__((noinline)) guarded_nested_qsort(void *base, size_t n, size_t size)
+{
+    if (setjmp(N.jb))
+        return false;
+    igc_qsort(base, n, size, cmp_nested);
+    return true;
+}
+static bool __attribute__((noinline)) guarded_nested_bsearch(void **res, const void *key, const void *base, size_t n, size_t size)
+{
+    if (setjmp(N.jb))
+        return false;
+    *res = igc_bsearch(key, base, n, size, cmp_nested);
+    return true;
+}
+static uint64_t nested_count() { return REDUCED ? 60 : vf::thorough() ? 6000 : 400; }
+static void nested_run(uint64_t idx)
+{
+    vf::Rng r(vf::seed(), 0xC11E, idx);
+    size_t n = idx % 29, rsize = 1 + r.below(r.chance(1, 2) ? 16 : 64);
+    // records: byte 0 = id (unique), rest payload
+    N.sub.assign(n, ""), N.sub_sorted.assign(n, ""), N.isz.assign(n, 1), N.med.assign(n, 0), N.text.assign(n, ""), N.val.assign(n, 0);
+    int universe = 1 + (int)r.below(6);
+    std::vector<uc> meds;
+    for (size_t id = 0; id < n; id++)
+    {
+        size_t isz = 1 + r.below(4), len = 4 + r.below(9); // >= 4 elements: the inner sort takes the pivot path too
+        N.isz[id] = isz;
+        string raw(len * isz, '\0');
+        uc want = (uc)(2 * (1 + r.below((uint64_t)universe * 7) % 100)); // even median, duplicate-rich across records
+        for (size_t k = 0; k < len; k++)
+        {
+            raw[k * isz] = (char)(k < len / 2 ? r.below(want) : k == len / 2 ? want : want + r.below(256 - want));
+            for (size_t j = 1; j < isz; j++)
+                raw[k * isz + j] = (char)r.next();
+        }
+        // shuffle the elements
+        for (size_t k = len; k > 1; k--)
+        {
+            size_t o = r.below(k);
+            for (size_t j = 0; j < isz; j++)
+                std::swap(raw[(k - 1) * isz + j], raw[o * isz + j]);
+        }
+        std::vector<string> el;
+        for (size_t k = 0; k < len; k++)
+            el.push_back(raw.substr(k * isz, isz));
+        std::sort(el.begin(), el.end(), [](const string &x, const string &y) { return memcmp(x.data(), y.data(), x.size()) < 0; });
+        string so;
+        for (auto &x : el)
+            so += x;
+        N.sub[id] = raw, N.sub_sorted[id] = so;
+        N.med[id] = (uc)so[(len / 2) * isz];
+        meds.push_back(N.med[id]);
+        long v = (long)(r.next() >> r.below(64)) * (r.chance(1, 2) ? -1 : 1);
+        char b[40];
+        unsigned long mag = v < 0 ? 0ul - (unsigned long)v : (unsigned long)v;
+        if (r.chance(1, 2))
+            snprintf(b, sizeof b, "%s0x%lx", v < 0 ? "-" : "", mag);
+        else
+            snprintf(b, sizeof b, "%ld", v);
+        N.text[id] = b;
+        N.val[id] = strtol(b, nullptr, 0);
+    }
+    std::sort(meds.begin(), meds.end());
+    meds.erase(std::unique(meds.begin(), meds.end()), meds.end());
+    N.table.assign(meds.begin(), meds.end());
+    string content(n * rsize, '\0');
+    for (size_t i = 0; i < n; i++)
+    {
+        content[i * rsize] = (char)i;
+        for (size_t k = 1; k < rsize; k++)
+            content[i * rsize + k] = (char)(0x40 + i + k);
+    }
+    // shuffle the records
+    for (size_t k = n; k > 1; k--)
+    {
+        size_t o = r.below(k);
+        for (size_t j = 0; j < rsize; j++)
+            std::swap(content[(k - 1) * rsize + j], content[o * rsize + j]);
+    }
+    CL("qsort", n < 4 ? "nested-comparator-n<4" : "nested-comparator");
+    std::vector<string> before = elements((const uc *)content.data(), n, rsize), sb = before;
+    std::sort(sb.begin(), sb.end());
+    string sorted_content;
+    for (int mirror = 0; mirror < 2; mirror++)
+    {
+        auto W = [&] { return fmt("qsort(n=%zu, size=%zu) with a comparator that sorts a sub-array with qsort, looks its median up with bsearch and parses a number with strtol; medians by record id=[%s] %s", n, rsize, vf::hex(N.med.data(), N.med.size(), 40).c_str(), mirror ? "mirrored" : "normal"); };
+        Wit<decltype(W)> ws(W);
+        Arr A(mirror, content, (unsigned)(idx % 8));
+        N.bad_inner = N.bad_bs = N.bad_num = N.bad_id = 0, N.calls = 0, N.limit = 4 * n * n + 64;
+        igc_srand((unsigned)idx);
+        if (!guarded_nested_qsort(A.p, n, rsize))
+            FAIL("runaway", "more than 4n^2+64 comparator calls: the outer qsort does not terminate when its comparator sorts");
+        if (N.bad_id)
+            FAIL("comparator-argument-corrupted", "%d comparator argument(s) did not hold one of the records (the pivot copy was overwritten while the comparator ran?)", N.bad_id);
+        if (N.bad_inner || N.bad_bs || N.bad_num)
+            FAIL("inner-result", "inside the comparator: %d inner qsort result(s), %d bsearch result(s), %d strtol result(s) differ from their references", N.bad_inner, N.bad_bs, N.bad_num);
+        std::vector<string> after = elements(A.p, n, rsize), sa = after;
+        std::sort(sa.begin(), sa.end());
+        if (sa != sb)
+            FAIL("permutation", "outer result is not a permutation of the records: ids now [%s]", [&] { string x; for (auto &e : after) x += fmt("%02x ", (uc)e[0]); return x; }().c_str());
+        for (size_t i = 0; i + 1 < n; i++)
+            if (N.med[(uc)after[i][0]] > N.med[(uc)after[i + 1][0]])
+                FAIL("order", "records %zu and %zu are out of order by their (precomputed) medians 0x%02x > 0x%02x", i, i + 1, N.med[(uc)after[i][0]], N.med[(uc)after[i + 1][0]]);
+        long o = A.outside_dirty();
+        if (o != 0x7fffffff)
+            FAIL("outside", "byte at base%+ld was modified", o);
+        sorted_content.assign((const char *)A.p, n * rsize);
+    }
+    VF_OK("qsort: comparator that itself calls qsort/bsearch/strtol -> ordered permutation, inner results == references");
+    // bsearch over the records sorted by median, the comparator again sorts/searches/parses
+    CL("bsearch", "nested-comparator");
+    for (size_t probe = 0; probe < n + 1 && probe < 6; probe++)
+    {
+        // key record: an existing id (present) or a synthetic record whose median is absent
+        size_t kid = probe < n ? r.below(n) : 0;
+        if (!n)
+            break;
+        auto W = [&] { return fmt("bsearch(key record id=%zu median=0x%02x, n=%zu, size=%zu) with the nested comparator", kid, N.med[kid], n, rsize); };
+        Wit<decltype(W)> ws(W);
+        string krec(rsize, (char)0x77);
+        krec[0] = (char)kid;
+        vf::Exact K(krec.data(), rsize, 0, false), A(sorted_content.data(), sorted_content.size(), (unsigned)(idx % 8), probe & 1);
+        N.bad_inner = N.bad_bs = N.bad_num = N.bad_id = 0, N.calls = 0, N.limit = 4 * n + 64;
+        void *res = nullptr;
+        if (!guarded_nested_bsearch(&res, K.p, A.p, n, rsize))
+            FAIL("runaway", "more than 4n+64 comparator calls");
+        if (N.bad_inner || N.bad_bs || N.bad_num)
+            FAIL("inner-result", "inside the comparator: %d inner qsort, %d bsearch, %d strtol result(s) differ from their references", N.bad_inner, N.bad_bs, N.bad_num);
+        const uc *rp = (const uc *)res;
+        if (!rp || rp < A.p || rp >= A.p + n * rsize || (size_t)(rp - A.p) % rsize || N.med[rp[0]] != N.med[kid])
+            FAIL("result", "returned %s, a record with median 0x%02x exists", rp ? "a wrong element" : "NULL", N.med[kid]);
+        VF_OK("bsearch: comparator that itself calls qsort/bsearch/strtol -> an element comparing equal");
+    }
+    vf::count_case(vf::hash_bytes(content.data(), content.size(), vf::mix(rsize, idx)), n >= 2);
+    if (vf::want_sample() && n == 11)
+        vf::sample("nested: %zu records of %zu bytes ordered by the median of their sub-arrays (inner qsort + bsearch + strtol inside the comparator)", n, rsize);
+}
+VF_SUITE(nested, nested_count, nested_run)
+
 extern "C" void vf_setup()
 {
     for (const char *c : {
@@ -825,6 +1021,8 @@ extern "C" void vf_setup()
              "bsearch: empty array -> NULL, nothing dereferenced",
              "bsearch: key present -> an element comparing equal",
              "bsearch: key absent -> NULL",
+             "qsort: comparator that itself calls qsort/bsearch/strtol -> ordered permutation, inner results == references",
+             "bsearch: comparator that itself calls qsort/bsearch/strtol -> an element comparing equal",
          })
         vf::require(c);
 }
